@@ -72,6 +72,32 @@ def check_argmax_primitives(p, report, rule="R18.1"):
                                 ok2 = True
         report.add(rule, f.qual, "argmax of noise * (a == optimum(keepdims=True))", f"{f.file}:{f.node.lineno}", ok2,
                    detail="tie-breaking structure present" if ok2 else "tie-breaking structure not found")
+        # a flat (scalar) argmax result over an n-d array is turned into coordinates: the guard of
+        # np.unravel_index looks at the RESULT (np.isscalar / ndim == 0) or at the value of axis
+        # (axis absent or None), never at whether the keyword was spelled out
+        unr = [n for n in ast.walk(xn) if isinstance(n, ast.Call) and c01.callname(n) == "unravel_index"]
+        tr = FuncTree(xn)
+        okg = bool(unr)
+        whyg = "no np.unravel_index"
+        for u in unr:
+            g = None
+            for (s_, owner, field, idx) in tr.ancestors(tr.stmt_of(u)):
+                if isinstance(owner, ast.If) and field == "body":
+                    g = owner
+                    break
+            if g is None:
+                okg, whyg = False, "np.unravel_index is applied unconditionally (also to per-axis results)"
+                continue
+            t = ast.unparse(g.test).replace(" ", "")
+            by_result = "isscalar(" in t or ".ndim==0" in t or "np.ndim(" in t
+            by_value = (".get('axis')isNone" in t) or ('.get("axis")isNone' in t) or (".get('axis',None)isNone" in t) \
+                or ('.get("axis",None)isNone' in t)
+            if not (by_result or by_value):
+                okg, whyg = False, (f"guard `{ast.unparse(g.test)[:70]}` does not test the result / the value of axis: an explicit "
+                                    f"axis=None returns a flat index for an n-d array")
+            else:
+                whyg = "guard tests the scalar result" if by_result else "guard tests axis is None"
+        report.add(rule, f.qual, "flat index of an n-d array is unravelled", f"{f.file}:{f.node.lineno}", okg, detail=whyg)
 
 
 def run(p, report, tier):
@@ -114,6 +140,29 @@ def run(p, report, tier):
         alld = all(dominates(tree, clip_if, tree.stmt_of(s)) for s in sels)
         report.add("R18.2", "simple_batch", "clip dominates both selection modes", f"{sb.file}:{clip_if.lineno}", alld and len(sels) >= 2,
                    detail=f"{len(sels)} selection calls")
+    # every index that simple_batch returns was produced by a selection primitive (rand_argmax /
+    # generator.choice on NaN-free probabilities): sorting or arg-reducing the NaN-marked utilities
+    # directly is not NaN-aware (NaN sorts last, i.e. FIRST in a reversed order)
+    ret_idx = set()
+    for n in ast.walk(sb.node):
+        if isinstance(n, ast.Return) and n.value is not None:
+            v = n.value.elts[0] if isinstance(n.value, ast.Tuple) and n.value.elts else n.value
+            if isinstance(v, ast.Name):
+                ret_idx.add(v.id)
+    for n in ast.walk(sb.node):
+        if isinstance(n, ast.Assign) and any(base_name(t) in ret_idx for t in n.targets if isinstance(t, (ast.Name, ast.Subscript))):
+            v = n.value
+            calls = [c01.callname(c) for c in ast.walk(v) if isinstance(c, ast.Call)]
+            alloc = any((c or "").split(".")[-1] in ("empty", "zeros", "full", "ones") for c in calls)
+            sel = any(c01.is_selection_call(c) for c in ast.walk(v) if isinstance(c, ast.Call))
+            conv = bool(names_in(v) & ret_idx) and not any((c or "").split(".")[-1] in (
+                "argsort", "sort", "argmax", "argmin", "nanargmax", "nanargmin", "argpartition", "lexsort", "sorted") for c in calls) \
+                and not ((names_in(v) - ret_idx - {"np", "numpy"}) & {a.arg for a in sb.node.args.args[:1]})
+            okv = alloc or sel or conv or (isinstance(v, ast.Name) and v.id in ret_idx)
+            report.add("R18.2", "simple_batch", f"returned indices `{norm_stmt(n, 60)}` come from a selection primitive",
+                       f"{sb.file}:{n.lineno}", okv, detail="allocation / rand_argmax / choice / index conversion" if okv else
+                       "the indices are computed by sorting / reducing the NaN-marked utilities directly: NaN entries are "
+                       "not excluded and ties are not broken at random")
     funcs = [sb]
     facts = {id(sb.node): c01.FnFacts(sb)}
     c02.check_loops(p, report, funcs, facts, rule21="R18.2", rule22="R18.2")
